@@ -8,7 +8,7 @@ CHECKS = {"R1": "C01 C02 C09 C17", "R2": "C01 C02 C09 C17 C20", "R3": "C07 C01 C
           "R7": "C03 C04 C05 C12 C13 C15 C16 C18", "R8": "C01 C02 C03 C09 C16 C17 C19", "R9": "C01 C02 C05 C07 C10 C11 C12 C13 C14 C15 C16 C19 C20"}
 PER_ID = {"R7-1": "C03 C04 C05 C13 C18", "R7-2": "C04 C05 C13 C18", "R7-3": "C03 C04 C12 C13 C16 C18", "R7-4": "C05",
           "R8-1": "C01 C02 C09 C17", "R8-2": "C01 C02 C09 C17", "R8-3": "C01 C02 C09 C16 C17 C19", "R8-4": "C01 C02 C03 C09 C16 C17",
-          "R9-1": "C01 C02 C10 C11 C13 C15", "R9-2": "C01 C02 C12 C13 C14 C15 C16", "R9-3": "C01 C02 C07 C12 C13", "R9-4": "C01 C02 C05 C06 C17 C20"}
+          "R9-1": "C01 C02 C10 C11 C13 C15", "R9-2": "C01 C02 C12 C13 C14 C15 C16", "R9-3": "C01 C02 C07 C12 C13", "R9-4": "C01 C02 C05 C06 C17 C20", "R10-1": "C05"}
 ids = sys.argv[1:] or sorted(d for d in os.listdir("refactors") if os.path.isdir(f"refactors/{d}"))
 lines = []
 for rid in ids:
